@@ -659,3 +659,29 @@ def sched_case(seed, nsteps=8, spec_kind="random", modes=("MCS", "GENERATIONAL",
                         out["dynamic"].append(dict(mode=mode, prune=prune, label=label, episode=e, start=k0, reads=nreads, bad=bad[:5], sizes=rt.buffer_sizes_list(gg, names, extra_padding=pad if gg is g2 else 0,
                                                                                                                                              sizes=({**gg._buffer_sizes}))))
     return out
+
+
+def wallclock_policy_case(seed, nsteps=10, neps=2):
+    """C03 on the wall clock: short real-time episodes of a small graph with non-blocking connections (a fast sender into a slower
+    supervisor, the feedback skipped); returns the records for the wall-clock monitor."""
+    import rex.constants as const
+    from rex.asynchronous import AsyncGraph
+
+    rng = random.Random(seed)
+    r_fast = rng.choice([20, 30, 40])
+    r_sup = rng.choice([8, 10])
+    nodes = [dict(name="n0", rate=r_fast, comp=dict(kind="det", loc=0.002, scale=0.0), advance=False, scheduling="FREQUENCY"),
+             dict(name="n1", rate=r_sup, comp=dict(kind="det", loc=0.002, scale=0.0), advance=False, scheduling=rng.choice(["FREQUENCY", "PHASE"]))]
+    conns = [dict(src="n0", dst="n1", blocking=False, skip=False, jitter="LATEST", window=rng.randint(1, 4), comm=dict(kind="det", loc=0.002, scale=0.0)),
+             dict(src="n1", dst="n0", blocking=False, skip=True, jitter="LATEST", window=1, comm=dict(kind="det", loc=0.002, scale=0.0))]
+    if rng.random() < 0.5:
+        nodes.insert(1, dict(name="nm", rate=rng.choice([15, 25]), comp=dict(kind="det", loc=0.003, scale=0.0), advance=False, scheduling="FREQUENCY"))
+        conns += [dict(src="n0", dst="nm", blocking=False, skip=False, jitter="LATEST", window=2, comm=dict(kind="det", loc=0.001, scale=0.0)),
+                  dict(src="nm", dst="n1", blocking=False, skip=False, jitter="LATEST", window=rng.randint(1, 3), comm=dict(kind="det", loc=0.001, scale=0.0))]
+    spec = dict(nodes=nodes, conns=conns, supervisor="n1", seed=rng.randrange(1 << 30))
+    run = rt.AsyncRun(spec, clock="WALL_CLOCK", jit_step=True)
+    out = dict(spec=spec, episodes=[])
+    for e in range(neps):
+        rec, obs, gs = run.episode(nsteps, eps=e, api=["step", "run"][e % 2])
+        out["episodes"].append(rt.episode_record_to_dict(rec))
+    return out
